@@ -43,7 +43,7 @@ class Note(object):
 
 class Call(object):
     __slots__ = ("name", "args", "t", "evno", "seq", "opi", "obj", "side", "oblig", "sat_seen",
-                 "removed", "completion", "base", "n", "prio_at_call")
+                 "removed", "completion", "base", "n", "prio_at_call", "progress_t", "last_g")
 
     def __init__(self, name, args, t, evno, seq, opi):
         self.name, self.args, self.t, self.evno, self.seq, self.opi = name, args, t, evno, seq, opi
@@ -56,6 +56,8 @@ class Call(object):
         self.base = 0
         self.n = 0
         self.prio_at_call = 0
+        self.progress_t = None    # last time a multi-step call was seen to make partial progress
+        self.last_g = None
 
 
 class Proc(object):
@@ -153,6 +155,7 @@ class SimOracle(object):
         self.n_events = 0
         self.same_instant_causes = 0
         self.pending_grants = {}
+        self.arrivals = {}           # (obj, side) -> [(time, pid)]
         self.skips = 0
         self.ops = 0
         for name, (kind, cap) in self.sc.objs.items():
@@ -289,6 +292,9 @@ class SimOracle(object):
                     inflight = cur is not None and cur.name in ("pacq", "ppre") and cur.obj == name
                     if inflight:
                         lo, hi = cur.base, cur.base + cur.n
+                        if cur.last_g is not None and g != cur.last_g:
+                            cur.progress_t = self.time
+                        cur.last_g = g
                     else:
                         lo = hi = settled
                     if lo <= g <= hi:
@@ -328,6 +334,9 @@ class SimOracle(object):
                     if cur is not None and cur.obj == name and cur.name in ("bput", "bget"):
                         am = self.lib_int("p%d.am" % p.pid, cur.n if cur.name == "bput" else 0)
                         want += (cur.n - am) if cur.name == "bput" else -am
+                        if cur.last_g is not None and am != cur.last_g:
+                            cur.progress_t = self.time
+                        cur.last_g = am
                 got = self.lib_int(name + ".l")
                 if got != want:
                     self.viol("C11", "C11/level-vs-transfers",
@@ -612,6 +621,8 @@ class SimOracle(object):
             elif name == "wait_ev":
                 c.args = [int(args[0])]
             c.side = GUARD_OF_OP.get(name, 0)
+            if name in GUARD_OF_OP:
+                self.arrivals.setdefault((c.obj, c.side), []).append((self.time, pid))
             p.cur = c
         else:
             self.nonblocking(p, name, args)
@@ -933,6 +944,19 @@ class SimOracle(object):
                           "p%d (priority %d, waiting since %s) was served on %s while p%d (priority %d, waiting since %s) "
                           "is still waiting" % (p.pid, p.prio, c.t, c.obj, v.pid, v.prio, vc.t))
             elif v.prio == p.prio and vc.t < c.t:
+                # Equal priorities are ordered by when they started waiting. From outside we cannot see
+                # a waiter that was woken in its turn and went back to the end of the line because
+                # (a) its request needs several helpings (visible as partial progress), or (b) a third
+                # process arriving in the meantime took what it had been woken for. Only judge when
+                # neither can have happened since p started waiting.
+                if vc.progress_t is not None and vc.progress_t >= c.t:
+                    self.cls("c06-skipped-partial-progress")
+                    continue
+                if c.name != "cwait" and any(tm >= c.t and pid not in (p.pid, v.pid)
+                                             for (tm, pid) in self.arrivals.get((c.obj, c.side), ())):
+                    self.cls("c06-skipped-third-arrival")
+                    continue
+                self.cls("c06-fifo-judged")
                 self.viol("C06", "C06/later-arrival-served-first/%s" % self.sc.objs[c.obj][0],
                           "p%d (priority %d, waiting since %s) was served on %s while p%d (same priority, waiting since %s) "
                           "is still waiting" % (p.pid, p.prio, c.t, c.obj, v.pid, vc.t))
@@ -1164,7 +1188,7 @@ class SimOracle(object):
                 for i in range(len(sx)):
                     if st_[i] <= T:
                         step = sx[i]
-                if step is None or step != val:
+                if step is None or step != float(val):      # the history stores doubles
                     self.viol("C14", "C14/history-differs/%s" % kind,
                               "%s: at t=%s the true value is %s but the recorded history gives %s (window %d)"
                               % (name, T, val, step, wi))
